@@ -153,6 +153,22 @@ func setupRequest(req *pool.Message, id int, kind string) error {
 		return nil
 	case 'p':
 		return req.SetupPost(path, tok, message.TextPlain, bytes.NewReader(body))
+	case 'r':
+		// a POST whose payload reader the application has already read (a checksum, a log line) before it issues the
+		// request: the reader stands at its end, r<n>, or - R<n> - in its middle
+		rd := bytes.NewReader(body)
+		if err := req.SetupPost(path, tok, message.TextPlain, rd); err != nil {
+			return err
+		}
+		_, _ = io.Copy(io.Discard, rd)
+		return nil
+	case 'R':
+		rd := bytes.NewReader(body)
+		if err := req.SetupPost(path, tok, message.TextPlain, rd); err != nil {
+			return err
+		}
+		_, _ = rd.Seek(int64(n/2), io.SeekStart)
+		return nil
 	case 'u':
 		if err := req.SetupPut(path, tok, message.AppOctets, bytes.NewReader(body)); err != nil {
 			return err
